@@ -95,9 +95,131 @@ func (in *Interp) foreign(fn *types.Func, recv Value, x *ast.CallExpr) []Value {
 			b = append(b, bv.Bits()...)
 		}
 		return []Value{&Bits{W: w, b: b}}
-	case "encoding/hex.EncodeToString", "(*encoding/base64.Encoding).EncodeToString":
+	case "encoding/hex.EncodeToString":
+		// two characters per byte, each an uninterpreted function of that byte (hex.DecodeString inverts them)
+		args := in.args(x, sig)
+		src, ok := args[0].(*Slice)
+		if !ok {
+			return []Value{&StrVal{}}
+		}
+		var chars []Value
+		for i := 0; i < src.Len(); i++ {
+			chars = append(chars, in.OpaqueBytes("hexchar", [][]Value{{src.At(i).V}}, 2, "hex digits")...)
+		}
+		return []Value{&StrVal{Chars: chars}}
+	case "(*encoding/base64.Encoding).EncodeToString":
 		return []Value{&StrVal{}}
-	case "strings.TrimPrefix", "strings.ToLower", "strings.ToUpper":
+	case "encoding/hex.EncodedLen", "encoding/hex.DecodedLen":
+		args := in.args(x, sig)
+		n, ok := args[0].(*Bits)
+		if !ok {
+			in.fail(x, "hex length of %T", args[0])
+		}
+		if name == "encoding/hex.EncodedLen" {
+			return []Value{in.D.MulConst(n, 2)}
+		}
+		return []Value{in.D.DivModConst(n, 2, false)}
+	case "bytes.HasPrefix":
+		args := in.args(x, sig)
+		a, ok1 := args[0].(*Slice)
+		b, ok2 := args[1].(*Slice)
+		if !ok1 || !ok2 {
+			in.fail(x, "bytes.HasPrefix on %T, %T", args[0], args[1])
+		}
+		if a.Len() < b.Len() {
+			return []Value{in.D.Bool(False)}
+		}
+		has := True
+		for i := 0; i < b.Len(); i++ {
+			has = in.D.M.And(has, in.equal(a.At(i).V, b.At(i).V, x))
+		}
+		return []Value{in.D.Bool(has)}
+	case "encoding/hex.Decode":
+		args := in.args(x, sig)
+		dst, ok1 := args[0].(*Slice)
+		src, ok2 := args[1].(*Slice)
+		if !ok1 || !ok2 {
+			in.fail(x, "hex.Decode on %T, %T", args[0], args[1])
+		}
+		var chars []Value
+		for i := 0; i < src.Len(); i++ {
+			chars = append(chars, src.At(i).V)
+		}
+		vals, invalid := in.hexDecodeChars(chars)
+		if len(vals) > dst.Len() {
+			in.crash(x, "hex.Decode: destination of %d bytes for %d decoded bytes", dst.Len(), len(vals))
+		}
+		for i, v := range vals {
+			in.store(dst.At(i), v)
+		}
+		if len(chars)%2 != 0 {
+			return []Value{in.D.Const(int64(len(vals)), 64, true), &ErrVal{NonNil: True}}
+		}
+		return []Value{in.D.Const(int64(len(vals)), 64, true), &ErrVal{NonNil: invalid}}
+	case "encoding/hex.DecodeString":
+		args := in.args(x, sig)
+		sv, ok := args[0].(*StrVal)
+		if !ok || (sv.Chars == nil && !sv.Known) {
+			in.fail(x, "hex.DecodeString of a string with unknown content")
+		}
+		chars := sv.Chars
+		if sv.Known {
+			chars = nil
+			for i := 0; i < len(sv.S); i++ {
+				chars = append(chars, in.D.Const(int64(sv.S[i]), 8, false))
+			}
+		}
+		bk := &Backing{}
+		if len(chars)%2 != 0 {
+			// hex.ErrLength (the decoded prefix is returned as well; callers test the error)
+			return []Value{&Slice{Back: bk, Elem: types.Typ[types.Uint8]}, &ErrVal{NonNil: True}}
+		}
+		invalid := False
+		for i := 0; i+1 < len(chars); i += 2 {
+			// the digits of one encoded byte decode to that byte
+			if id1, k1, ok1 := in.OpaqueOf(chars[i]); ok1 && k1 == 0 {
+				if id2, k2, ok2 := in.OpaqueOf(chars[i+1]); ok2 && id2 == id1 && k2 == 1 {
+					if t, ok := in.OpaqueDesc[id1]; ok && t.Kind == "hexchar" && len(t.Inputs) == 1 && len(t.Inputs[0]) == 1 {
+						bk.E = append(bk.E, &Cell{t.Inputs[0][0]})
+						continue
+					}
+				}
+			}
+			out := in.OpaqueBytes("hexval", [][]Value{{chars[i], chars[i+1]}}, 2, "hex value / validity")
+			bk.E = append(bk.E, &Cell{out[0]})
+			invalid = in.D.M.Or(invalid, out[1].(*Bits).Bits()[0]) // an uninterpreted "not two hex digits" bit
+		}
+		return []Value{&Slice{Back: bk, Hi: len(bk.E), Cap: len(bk.E), Elem: types.Typ[types.Uint8]}, &ErrVal{NonNil: invalid}}
+	case "strings.TrimPrefix":
+		args := in.args(x, sig)
+		sv, ok1 := args[0].(*StrVal)
+		pre, ok2 := args[1].(*StrVal)
+		if !ok1 || !ok2 || !pre.Known || (sv.Chars == nil && !sv.Known) {
+			return []Value{&StrVal{}}
+		}
+		if sv.Known {
+			return []Value{&StrVal{Known: true, S: strings.TrimPrefix(sv.S, pre.S)}}
+		}
+		if len(sv.Chars) < len(pre.S) {
+			return []Value{sv}
+		}
+		has := True
+		for i := 0; i < len(pre.S); i++ {
+			// hex.EncodeToString emits only the characters 0-9a-f
+			if id, _, ok := in.OpaqueOf(sv.Chars[i]); ok && in.OpaqueDesc[id].Kind == "hexchar" && !strings.ContainsRune("0123456789abcdef", rune(pre.S[i])) {
+				has = False
+				break
+			}
+			has = in.D.M.And(has, in.D.Cmp(token.EQL, sv.Chars[i].(*Bits), in.D.Const(int64(pre.S[i]), 8, false)))
+		}
+		switch {
+		case in.D.M.And(in.live, in.D.M.Not(has)) == False:
+			return []Value{&StrVal{Chars: sv.Chars[len(pre.S):]}}
+		case in.D.M.And(in.live, has) == False:
+			return []Value{sv}
+		}
+		panic(SplitRequest{Cond: has, Why: "string prefix depends on symbolic characters"})
+	case "strings.ToLower", "strings.ToUpper":
 		return []Value{&StrVal{}}
 	case "math/bits.OnesCount", "math/bits.OnesCount8", "math/bits.OnesCount16", "math/bits.OnesCount32", "math/bits.OnesCount64":
 		args := in.args(x, sig)
@@ -481,4 +603,26 @@ func (in *Interp) OpaqueSubst(from, to int, nbytes int) map[int]Node {
 		}
 	}
 	return sub
+}
+
+// hexDecodeChars decodes pairs of characters: the two digits hex.EncodeToString produced for a byte give that byte back,
+// any other pair an uninterpreted byte and an uninterpreted "not two hex digits" bit. A trailing odd character is
+// ignored here (the caller reports the length error).
+func (in *Interp) hexDecodeChars(chars []Value) ([]Value, Node) {
+	var out []Value
+	invalid := False
+	for i := 0; i+1 < len(chars); i += 2 {
+		if id1, k1, ok1 := in.OpaqueOf(chars[i]); ok1 && k1 == 0 {
+			if id2, k2, ok2 := in.OpaqueOf(chars[i+1]); ok2 && id2 == id1 && k2 == 1 {
+				if t, ok := in.OpaqueDesc[id1]; ok && t.Kind == "hexchar" && len(t.Inputs) == 1 && len(t.Inputs[0]) == 1 {
+					out = append(out, t.Inputs[0][0])
+					continue
+				}
+			}
+		}
+		o := in.OpaqueBytes("hexval", [][]Value{{chars[i], chars[i+1]}}, 2, "hex value / validity")
+		out = append(out, o[0])
+		invalid = in.D.M.Or(invalid, o[1].(*Bits).Bits()[0])
+	}
+	return out, invalid
 }
